@@ -191,6 +191,8 @@ fn main() {
         classify: classify2,
     };
     let be_len = run.pick(3, 4);
+    // every NaN is the same null (DESIGN 5.4)
+    let single_nan = single.nan_kinds(run.pick(4, 5));
     if let Some(path) = &run.replay {
         let stored = load_replay(path).unwrap_or_else(|e| {
             eprintln!("MACHINERY-ERROR: {e}");
@@ -207,7 +209,7 @@ fn main() {
                 pairs.check_pair(&word, &a, &b, &mut ctx)
             }
             _ => {
-                for f in [&single, &single_m, &plain, &values] {
+                for f in [&single, &single_m, &plain, &values, &single_nan] {
                     if f.name == fam {
                         f.check_word(&word, &mut ctx);
                     }
@@ -217,6 +219,7 @@ fn main() {
         std::process::exit(finish_replay(&run, &stored, ctx));
     }
     let mut total = explore_tree(&single, run.threads);
+    total.merge(explore_tree(&single_nan, run.threads));
     total.merge(explore_tree(&single_m, run.threads));
     total.merge(explore_tree(&plain, run.threads));
     total.merge(explore_tree(&values, run.threads));
